@@ -162,6 +162,9 @@ def gen_case(rng, tier):
         spec["ranges"] = (lo, hi, tight, None)  # clip=False randomises through numpy.random inside the objective: kept out
     spec["evalmon"] = rng.choice(["Monitor", "Monitor", "Null", "VerboseMonitor", "LoggingMonitor"])
     spec["stepmon"] = rng.choice(["default", "default", "Monitor", "VerboseMonitor", "LoggingMonitor", "VerboseLoggingMonitor"])
+    if rng.random() < 0.25:
+        spec["stepmon"] = rng.choice(["Monitor", "VerboseMonitor", "LoggingMonitor", "LoggingMonitor", "VerboseLoggingMonitor"]) + ":" + rng.choice(["2.0", "0.5", "4.0", "-2.0"])
+
     spec["savefreq"] = rng.choice([1, 1, 2, 3])
     spec["mode"] = rng.choice(["none", "none", "own", "ref", "fresh"])
     if spec["mode"] == "fresh" and spec.get("ranges"):
@@ -200,6 +203,18 @@ def first_kwds(spec):
 
 def make_monitor(kind, tmp, tag):
     from mystic.monitors import Monitor, Null, VerboseMonitor, LoggingMonitor, VerboseLoggingMonitor
+    if ":" in kind:
+        # a monitor with a cost multiplier k (a power of two: (k*y)/k is exact, so the trajectory is the one without k)
+        base, k = kind.split(":"); k = float(k)
+        if base == "Monitor":
+            return Monitor(k=k)
+        if base == "VerboseMonitor":
+            return VerboseMonitor(3, k=k)
+        if base == "LoggingMonitor":
+            return LoggingMonitor(1, filename=os.path.join(tmp, "log_%s.txt" % tag), k=k)
+        if base == "VerboseLoggingMonitor":
+            return VerboseLoggingMonitor(1, 5, filename=os.path.join(tmp, "vlog_%s.txt" % tag), k=k)
+        raise ValueError(kind)
     if kind in ("Monitor",):
         return Monitor()
     if kind == "Null":
@@ -296,7 +311,9 @@ def snap(s):
     d["bestEnergy"] = arr(s.bestEnergy)
     d["evaluations"] = int(s.evaluations); d["generations"] = int(s.generations)
     sm = s._stepmon
-    d["stepmon_x"] = arr(sm._x); d["stepmon_y"] = arr(sm._y); d["stepmon_id"] = list(sm._id)
+    # `.y` is the view the solver reads (energy_history): the stored costs divided by the monitor's multiplier k
+    d["stepmon_x"] = arr(sm._x); d["stepmon_y"] = arr(list(sm.y)); d["stepmon_id"] = list(sm._id)
+    d["stepmon_yraw"] = arr(sm._y); d["stepmon_k"] = getattr(sm, "k", None)
     d["stepmon_info"] = [m for m in sm._info if not m.startswith(INCIDENTAL_INFO)]
     em = s._evalmon
     if isinstance(em, Null):
